@@ -3,6 +3,7 @@ package c16
 import (
 	"fmt"
 	"math/rand"
+	"os"
 	"sort"
 	"strconv"
 	"strings"
@@ -71,8 +72,15 @@ func (area) Run(c *core.Ctx) error {
 func genCfg(r *rand.Rand) *cfg {
 	c := &cfg{lim: limits{isDefault: true, maxName: 256, maxField: 128, maxTagKey: 128, maxTagVal: 1024, maxTags: 32, maxFields: 256}}
 	if r.Intn(3) == 0 {
-		c.lim = limits{maxName: []int{0, 3, 8, 256}[r.Intn(4)], maxField: []int{0, 5, 12, 128}[r.Intn(4)], maxTagKey: []int{0, 2, 4, 128}[r.Intn(4)],
-			maxTagVal: []int{0, 2, 7, 1024}[r.Intn(4)], maxTags: []int{0, 1, 3, 6, 32}[r.Intn(5)], maxFields: []int{0, 1, 2, 256}[r.Intn(4)]}
+		// a few limits tightened (or disabled with 0), the others at their defaults
+		ch := func(def int, small ...int) int {
+			if r.Intn(3) == 0 {
+				return small[r.Intn(len(small))]
+			}
+			return def
+		}
+		c.lim = limits{maxName: ch(256, 0, 8, 16), maxField: ch(128, 0, 12, 20), maxTagKey: ch(128, 0, 4, 8),
+			maxTagVal: ch(1024, 0, 7, 40), maxTags: ch(32, 0, 3, 6, 13), maxFields: ch(256, 0, 1, 2)}
 	}
 	if r.Intn(5) == 0 {
 		c.reqNs = []string{"req-ns", "r|q", "要求"}[r.Intn(3)]
@@ -365,6 +373,9 @@ func formatAgreement(c *core.Ctx, cf *cfg, m *lmetric, o *obs, cons bool, t0 int
 		switch {
 		case err != nil || b.Len() != 1:
 			c.Branch("flat-rejects-what-proto-accepts")
+			if os.Getenv("VERIF_C16_DEBUG") != "" {
+				fmt.Fprintf(os.Stderr, "flat rejects %s err=%v lim=%+v\n", m.enc(), err, cf.lim)
+			}
 		default:
 			o2, mism := observe(&b.Rows()[0])
 			if o2 == nil {
@@ -385,6 +396,9 @@ func formatAgreement(c *core.Ctx, cf *cfg, m *lmetric, o *obs, cons bool, t0 int
 		switch {
 		case err != nil || b.Len() != 1:
 			c.Branch("influx-rejects-what-proto-accepts")
+			if os.Getenv("VERIF_C16_DEBUG") != "" {
+				fmt.Fprintf(os.Stderr, "influx rejects %q err=%v lim=%+v\n", line, err, cf.lim)
+			}
 		default:
 			o2, mism := observe(&b.Rows()[0])
 			if o2 == nil {
@@ -717,8 +731,8 @@ func caseBatch(c *core.Ctx, r *rand.Rand) {
 	sharedTags := genMetric(r, 0, 1).tags
 	for i := 0; i < n; i++ {
 		bad := 0
-		if r.Intn(6) == 0 {
-			bad = 300
+		if r.Intn(5) == 0 {
+			bad = 80
 		}
 		m := genMetric(r, bad, tss[i])
 		if r.Intn(3) == 0 {
